@@ -52,6 +52,8 @@ def modifyAlts (items : List Item) (pos : Nat) (f : List Nat → List Nat) : Lis
 
 /-! ### operands -/
 
+def natOf (s : String) : Nat := s.toNat?.getD 1000000
+
 /-- `RelM::parse_canon` on the generator's canonical operand texts, through the lossy reader -/
 def parseRel (t : Str) : Option Lossy.Relation :=
   match Lossy.readRelation (Text.trim t) with
@@ -88,6 +90,61 @@ def buildEntry (way : String) (rels : List Lossy.Relation) : Option RNode :=
   | "b" => do pure ((← rels.mapM (buildRel "b")).foldl entryPush entryNew)
   | _ => none
 
+/-- an operand: built from its text in one of the ways `p` / `c` / `b`, or a LIVE handle: `l` = the
+    entry `t` of the field being edited (`get_entry(t)`), `o` = the first entry of another field read
+    from the text `t`. The edits take a copy of a live operand: the node it has at that moment. -/
+inductive Opnd
+  | skip
+  | panic
+  | ok (e : RNode) (n : Nat)
+
+def entryOperand (kids : List RNode) (items : List Item) (way t : String) : Opnd :=
+  if way == "l" then
+    let k := natOf t
+    match entryPos items k with
+    | none => .skip
+    | some _ =>
+      match (nthNode .ENTRY kids k).bind (kids[·]?) with
+      | some e => .ok e ((altsOf items k).getD []).length
+      | none => .panic
+  else if way == "o" then
+    match decStr t with
+    | none => .skip
+    | some txt =>
+      let p := parse txt false
+      if !p.errors.isEmpty then .skip else
+      match (nthNode .ENTRY p.tree.children 0).bind (p.tree.children[·]?) with
+      | some e => .ok e (nodePositions .RELATION e.children).length
+      | none => .skip
+  else
+    match (decStr t).bind parseEntry with
+    | none => .skip
+    | some rels =>
+      match buildEntry way rels with
+      | none => .panic
+      | some e => .ok e rels.length
+
+/-- a relation operand: `l` = the live relation `K-J` of the field being edited -/
+def relOperand (kids : List RNode) (items : List Item) (way t : String) : Option (Option RNode) :=
+  if way == "l" then
+    match t.splitOn "-" with
+    | [k, j] =>
+      let (k, j) := (natOf k, natOf j)
+      match entryPos items k with
+      | none => none
+      | some _ =>
+        if j ≥ ((altsOf items k).map List.length).getD 0 then none else
+        some do
+          let p ← nthNode .ENTRY kids k
+          let e ← kids[p]?
+          let q ← nthNode .RELATION e.children j
+          e.children[q]?
+    | _ => none
+  else
+    match (decStr t).bind parseRel with
+    | none => none
+    | some m => some (buildRel way m)
+
 /-! ### one step -/
 
 inductive Step
@@ -102,8 +159,6 @@ def ofOutcome (s : St) (o : Outcome Field) : Step :=
 
 def lookupE (f : Field) (id : Nat) : Option ERef := (f.ehs.find? (·.1 == id)).map (·.2)
 def lookupR (f : Field) (id : Nat) : Option RRef := (f.rhs.find? (·.1 == id)).map (·.2)
-
-def natOf (s : String) : Nat := s.toNat?.getD 1000000
 
 def opOfName (s : String) : Option VC :=
   match s with
@@ -135,42 +190,42 @@ def apply (s : St) (f : List String) : Step :=
   match f with
   | ["ins", i, way, t] =>
     let i := natOf i
-    match (decStr t).bind parseEntry with
-    | none => .skip
-    | some rels =>
+    match entryOperand s.field.kids s.items way t with
+    | .skip => .skip
+    | o =>
       if i > n then .skip else
-      match buildEntry way rels with
-      | none => .panic
-      | some e =>
+      match o with
+      | .skip => .skip
+      | .panic => .panic
+      | .ok e len =>
         let fld := s.field.insert i e
-        let (item, s1) := newEntry s rels.length
+        let (item, s1) := newEntry s len
         let pos := (entryPos s.items i).getD s.items.length
         .done { s1 with field := fld, items := s.items.take pos ++ [item] ++ s.items.drop pos }
   | ["push", way, t] =>
-    match (decStr t).bind parseEntry with
-    | none => .skip
-    | some rels =>
-      match buildEntry way rels with
-      | none => .panic
-      | some e =>
-        let fld := s.field.push e
-        let (item, s1) := newEntry s rels.length
-        .done { s1 with field := fld, items := s.items ++ [item] }
+    match entryOperand s.field.kids s.items way t with
+    | .skip => .skip
+    | .panic => .panic
+    | .ok e len =>
+      let fld := s.field.push e
+      let (item, s1) := newEntry s len
+      .done { s1 with field := fld, items := s.items ++ [item] }
   | ["repl", i, way, t] =>
     let i := natOf i
-    match (decStr t).bind parseEntry with
-    | none => .skip
-    | some rels =>
+    match entryOperand s.field.kids s.items way t with
+    | .skip => .skip
+    | o =>
       match entryPos s.items i with
       | none => .skip
       | some pos =>
-        match buildEntry way rels with
-        | none => .panic
-        | some e =>
+        match o with
+        | .skip => .skip
+        | .panic => .panic
+        | .ok e len =>
           match s.field.replace i e with
           | .panic _ => .panic
           | .ok fld =>
-            let (item, s1) := newEntry s rels.length
+            let (item, s1) := newEntry s len
             .done { s1 with field := fld, items := s.items.take pos ++ [item] ++ s.items.drop (pos + 1) }
   | ["rme", mode, i] =>
     let i := natOf i
@@ -191,14 +246,14 @@ def apply (s : St) (f : List String) : Step :=
         | .ok fld => .done { s with field := fld, items := s.items.take pos ++ s.items.drop (pos + 1) }
   | ["epush", mode, i, way, t] =>
     let i := natOf i
-    match (decStr t).bind parseRel with
+    match relOperand s.field.kids s.items way t with
     | none => .skip
-    | some m =>
+    | some r? =>
       match entryPos s.items i with
       | none => .skip
       | some pos =>
         let id := (s.items[pos]?.map (·.id)).getD 0
-        match buildRel way m with
+        match r? with
         | none => .panic
         | some r =>
           match entryTarget s mode i id with
@@ -209,15 +264,15 @@ def apply (s : St) (f : List String) : Step :=
             .done { s1 with field := fld, items := modifyAlts s.items pos (· ++ [rid]) }
   | ["erepl", mode, i, j, way, t] =>
     let (i, j) := (natOf i, natOf j)
-    match (decStr t).bind parseRel with
+    match relOperand s.field.kids s.items way t with
     | none => .skip
-    | some m =>
+    | some r? =>
       match entryPos s.items i with
       | none => .skip
       | some pos =>
         if j ≥ ((altsOf s.items i).map List.length).getD 0 then .skip else
         let id := (s.items[pos]?.map (·.id)).getD 0
-        match buildRel way m with
+        match r? with
         | none => .panic
         | some r =>
           match entryTarget s mode i id with
